@@ -2,7 +2,7 @@
 (failures, duplicates, prov=False subtrees, tags, catch) are produced by a handful of real redun tasks.
 
 spec  ::= (kind, label, calls)            kind in leaf | fail | par | comb | catch | tags | then
-call  ::= (variant, opt, spec)            variant in A | B | S | N | T ; opt in "" | "np" (prov=False at the call)
+call  ::= (variant, opt, spec)            variant in A | B | S | N | T | U ; opt in "" | "np" (prov=False at the call) | "tg" (tags at the call)
 """
 import redun
 from redun import task
@@ -16,6 +16,8 @@ def call(c):
     t = TASKS[variant]
     if opt == "np":
         t = t.options(prov=False)
+    elif opt == "tg":
+        t = t.options(tags=[("ct", 7)])
     return t(spec)
 
 
@@ -64,6 +66,11 @@ def tT(spec):
     return interp(spec)
 
 
+@task(check_valid="shallow", tags=[("team", "gmS")])
+def tU(spec):
+    return interp(spec)
+
+
 @task()
 def comb(*xs):
     return ["c", list(xs)]
@@ -79,5 +86,6 @@ def after(x, calls):
     return [x] + [call(c) for c in calls]
 
 
-TASKS = {"A": tA, "B": tB, "S": tS, "N": tN, "T": tT}
+TASKS = {"A": tA, "B": tB, "S": tS, "N": tN, "T": tT, "U": tU}
+TASK_TAGS = {"gm.tT": [("team", "gm")], "gm.tU": [("team", "gmS")]}        # definition-level tags
 redun.namespace("")
